@@ -9,7 +9,7 @@ use std::collections::{BTreeMap, BTreeSet, HashSet};
 use std::hash::{Hash, Hasher};
 use std::panic::{catch_unwind, AssertUnwindSafe};
 use std::sync::atomic::{AtomicBool, AtomicUsize, Ordering};
-use std::sync::Mutex;
+use std::sync::{Arc, Mutex, OnceLock, RwLock};
 use std::time::Instant;
 
 #[derive(Clone, Debug)]
@@ -247,6 +247,7 @@ impl Ctx {
             observed,
             expected: expected.to_string(),
         };
+        journal(&v);
         self.store_violation(v);
     }
 
@@ -335,6 +336,25 @@ impl Ctx {
     }
 }
 
+/// "Poison" calls: deliberately invalid or abandoned calls of the API under test (out-of-range arguments,
+/// input iterators that panic half way, texts that fail late in parsing), made on the worker threads *between*
+/// judged cases. Their own outcome is not judged (an error or a panic is a legitimate answer to nonsense);
+/// what is judged is everything the same thread does afterwards: state of an abandoned call (scratch buffers,
+/// thread-local caches) must not leak into later calls. Registered by a property's `run`, invoked by
+/// `par_range` before every 4th case (less often when a range has more than 80,000 cases).
+type Poison = Arc<dyn Fn(u64) + Send + Sync>;
+static POISON: RwLock<Option<Poison>> = RwLock::new(None);
+/// at most about this many poison calls per `par_range` (a caught panic costs microseconds to milliseconds)
+const MAX_POISON_CALLS: usize = 20_000;
+
+pub fn set_poison(f: impl Fn(u64) + Send + Sync + 'static) {
+    *POISON.write().unwrap() = Some(Arc::new(f));
+}
+
+pub fn clear_poison() {
+    *POISON.write().unwrap() = None;
+}
+
 /// Runs `f(ctx, i)` for all i in 0..n on `cfg.threads` workers; returns the merged context.
 /// The assignment of indices to workers is dynamic, but everything `f` does must depend
 /// only on `i` (and the seed), so results are reproducible.
@@ -351,12 +371,24 @@ where
         for _ in 0..threads {
             s.spawn(|| {
                 let mut ctx = Ctx::new();
+                let poison: Option<Poison> = POISON.read().unwrap().clone();
+                let poison_every = (n / MAX_POISON_CALLS).max(4);
                 loop {
                     let start = next.fetch_add(chunk, Ordering::Relaxed);
                     if start >= n {
                         break;
                     }
                     for i in start..(start + chunk).min(n) {
+                        if let Some(p) = &poison {
+                            if i % poison_every == 0 {
+                                let r = catch_unwind(AssertUnwindSafe(|| p(i as u64)));
+                                ctx.count("poison.calls_between_judged_cases");
+                                if r.is_err() {
+                                    LAST_PANIC.with(|p| p.borrow_mut().take());
+                                    ctx.count("poison.calls_that_ended_in_a_caught_panic");
+                                }
+                            }
+                        }
                         let r = catch_unwind(AssertUnwindSafe(|| f(&mut ctx, i)));
                         if let Err(_) = r {
                             let p = LAST_PANIC.with(|p| p.borrow_mut().take());
@@ -451,6 +483,113 @@ impl Report {
     }
 }
 
+/// Early journal of violations.
+///
+/// A violation is an observation of the oracle; it stays one when the monitor process later dies (a mutated
+/// library that allocates without bound runs into the address-space fuse) or runs into the watchdog. The
+/// first few violations that are not known findings are therefore written out at the moment they are
+/// observed: the replay file, and one `VIOLATION` line in `<verif-dir>/replays/.journal-<prop>-<lane>`.
+/// `finish` removes the journal (it prints the lines itself); `bin/check` and the watchdog read it when the
+/// run did not get that far.
+struct Journal {
+    prop: String,
+    verif_dir: String,
+    seed: u64,
+    tier: String,
+    lane: String,
+    known: KnownFindings,
+    path: String,
+    written: Mutex<BTreeSet<String>>,
+}
+
+static JOURNAL: OnceLock<Journal> = OnceLock::new();
+const MAX_JOURNAL: usize = 6;
+
+pub fn journal_path(verif_dir: &str, prop: &str, lane: &str) -> String {
+    format!("{}/replays/.journal-{}-{}", verif_dir, prop, lane)
+}
+
+pub fn open_journal(cfg: &Cfg) {
+    let path = journal_path(&cfg.verif_dir, &cfg.prop, &cfg.lane);
+    let _ = std::fs::remove_file(&path);
+    let _ = JOURNAL.set(Journal {
+        prop: cfg.prop.clone(),
+        verif_dir: cfg.verif_dir.clone(),
+        seed: cfg.seed,
+        tier: cfg.tier.name().to_string(),
+        lane: cfg.lane.clone(),
+        known: KnownFindings::load(&cfg.verif_dir),
+        path,
+        written: Mutex::new(BTreeSet::new()),
+    });
+}
+
+fn replay_path(verif_dir: &str, prop: &str, v: &Violation, sig: &str) -> String {
+    format!(
+        "{}/replays/{}-{}-{:016x}.json",
+        verif_dir,
+        prop,
+        v.clause.replace(|c: char| !c.is_ascii_alphanumeric(), "_").chars().take(40).collect::<String>(),
+        digest_str(sig)
+    )
+}
+
+fn replay_body(prop: &str, v: &Violation, sig: &str, seed: u64, tier: &str, lane: &str) -> Value {
+    json!({
+        "property": prop,
+        "clause": v.clause,
+        "api": v.api,
+        "input": v.input,
+        "observed": v.observed,
+        "expected": v.expected,
+        "seed": seed,
+        "tier": tier,
+        "lane": lane,
+        "signature": sig,
+    })
+}
+
+fn journal(v: &Violation) {
+    let j = match JOURNAL.get() {
+        Some(j) => j,
+        None => return,
+    };
+    let mut w = match j.written.lock() {
+        Ok(w) => w,
+        Err(_) => return,
+    };
+    if w.len() >= MAX_JOURNAL {
+        return;
+    }
+    let sig = v.signature(&j.prop);
+    if j.known.lookup(&j.prop, &sig).is_some() || !w.insert(sig.clone()) {
+        return;
+    }
+    let _ = std::fs::create_dir_all(format!("{}/replays", j.verif_dir));
+    let path = replay_path(&j.verif_dir, &j.prop, v, &sig);
+    let body = replay_body(&j.prop, v, &sig, j.seed, &j.tier, &j.lane);
+    if std::fs::write(&path, serde_json::to_string_pretty(&body).unwrap_or_default()).is_ok() {
+        use std::io::Write;
+        if let Ok(mut f) = std::fs::OpenOptions::new().create(true).append(true).open(&j.path) {
+            let _ = writeln!(f, "VIOLATION property={} replay={}", j.prop, path);
+        }
+    }
+}
+
+/// The `VIOLATION` lines journalled so far by this process.
+pub fn journal_lines() -> Vec<String> {
+    match JOURNAL.get() {
+        Some(j) => std::fs::read_to_string(&j.path).map(|t| t.lines().filter(|l| l.starts_with("VIOLATION ")).map(|l| l.to_string()).collect()).unwrap_or_default(),
+        None => vec![],
+    }
+}
+
+fn close_journal() {
+    if let Some(j) = JOURNAL.get() {
+        let _ = std::fs::remove_file(&j.path);
+    }
+}
+
 pub struct KnownFindings {
     pub known: Vec<(String, String, String)>, // (property, sig, text)
 }
@@ -537,25 +676,8 @@ pub fn finish(mut report: Report) -> i32 {
         if k >= 25 {
             break;
         }
-        let path = format!(
-            "{}/{}-{}-{:016x}.json",
-            replay_dir,
-            prop,
-            v.clause.replace(|c: char| !c.is_ascii_alphanumeric(), "_").chars().take(40).collect::<String>(),
-            digest_str(sig)
-        );
-        let body = json!({
-            "property": prop,
-            "clause": v.clause,
-            "api": v.api,
-            "input": v.input,
-            "observed": v.observed,
-            "expected": v.expected,
-            "seed": cfg.seed,
-            "tier": cfg.tier.name(),
-            "lane": cfg.lane,
-            "signature": sig,
-        });
+        let path = replay_path(&cfg.verif_dir, &prop, v, sig);
+        let body = replay_body(&prop, v, sig, cfg.seed, cfg.tier.name(), &cfg.lane);
         let _ = std::fs::write(&path, serde_json::to_string_pretty(&body).unwrap());
         lines.push(format!("VIOLATION property={} replay={}", prop, path));
         eprintln!(
@@ -649,6 +771,7 @@ pub fn finish(mut report: Report) -> i32 {
         eprintln!("cannot write evidence file {}: {}", path, e);
     }
 
+    close_journal();
     for (sig, (text, n)) in &known_hits {
         println!("KNOWN-FINDING: property={} {} (sig={}, seen {}x)", prop, text, sig, n);
     }
@@ -699,6 +822,15 @@ pub fn start_watchdog(prop: &str, secs: u64) {
     let prop = prop.to_string();
     std::thread::spawn(move || {
         std::thread::sleep(std::time::Duration::from_secs(secs));
+        let seen = journal_lines();
+        if !seen.is_empty() {
+            // violations observed before the run got stuck stay violations
+            println!("{} VIOLATED (run cut short by the wall-clock watchdog of {}s; violations observed before that)", prop, secs);
+            for l in seen {
+                println!("{}", l);
+            }
+            std::process::exit(1);
+        }
         println!(
             "INCONCLUSIVE property={} reason=wall-clock watchdog of {}s fired (a call may not have returned)",
             prop, secs
